@@ -54,6 +54,12 @@ func init() {
 		"vfEngine":     func(fr *frame, args []value) value { return true },
 		"vfYield":      vfYield,
 		"vfThreads":    vfThreads,
+		"vfGate":       vfGate,
+		"vfAwait":      vfAwait,
+		"vfAtomic":     vfAtomic,
+		"vfSameBytes":  vfSameBytes,
+		"vfCount":      vfCount,
+		"vfOpaqueItoa": func(fr *frame, args []value) value { fr.i.pc.opaqueItoa = args[0].(bool); return nil },
 	} {
 		vfIntrinsics[k] = v
 	}
@@ -357,8 +363,6 @@ func vfLog(fr *frame, args []value) value {
 	return nil
 }
 
-func vfYield(fr *frame, args []value) value  { return nil }
-func vfThreads(fr *frame, args []value) value { return nil }
 
 // ---------------------------------------------------------------------
 // JSON byte handles
@@ -536,4 +540,38 @@ func vfDigest(fr *frame, args []value) value {
 		panic(engineErr("vfDigest of non-handle bytes"))
 	}
 	return "b64(sha256(" + bl.render + "))"
+}
+
+// vfSameBytes(a, b []byte) bool : the two byte slices are the very same payload (handle identity
+// in the engine, content equality natively).
+func vfSameBytes(fr *frame, args []value) value {
+	a, b := asBlob(args[0]), asBlob(args[1])
+	if a == nil || b == nil {
+		la, _ := args[0].([]value)
+		lb, _ := args[1].([]value)
+		return len(la) == 0 && len(lb) == 0
+	}
+	return a == b
+}
+
+// vfCount(s string, list []string) int : how many elements equal s, as ONE term.
+func vfCount(fr *frame, args []value) value {
+	list, _ := args[1].([]value)
+	n := 0
+	var parts []string
+	for _, e := range list {
+		switch r := symEq(types.Typ[types.String], args[0], e).(type) {
+		case bool:
+			if r {
+				n++
+			}
+		case *sym:
+			parts = append(parts, "(ite "+r.e+" "+bvConst(1, 64)+" "+bvConst(0, 64)+")")
+		}
+	}
+	if len(parts) == 0 {
+		return n
+	}
+	parts = append(parts, bvConst(uint64(n), 64))
+	return &sym{s: sBV, w: 64, e: "(bvadd " + strings.Join(parts, " ") + ")"}
 }
